@@ -38,19 +38,19 @@ theorem C06_qualOK_none (a0 : Args) (p : Prov) (h : find a0 kQualifier = none) :
   simp [qualOK, h]
 
 /-- SOUND (wire tag, by type = empty value part): every candidate is a registered component assignable to the declared
-    type; nothing is marked incompatible.  (`s.isFunc = false` is not even needed: the func tag only adds a test.) -/
+    type; nothing is marked incompatible unless a post-processor hands out an object of ANOTHER Go type for a candidate (`Prov.inj`).  (`s.isFunc = false` is not even needed: the func tag only adds a test.) -/
 theorem C06_sound_wire (pop : List Prov) (s : Slot) (a0 : Args) (pt : RPoint)
     (hp : parse? s.tag = some ([], a0)) (h : resolveOne pop s = some pt) :
     (∀ c ∈ pt.cands, ∃ p ∈ pop, p.id = c ∧ assignable s.kind p = true) ∧
-    ((pop.map (·.id)).Nodup → pt.incompat = []) := by
+    ((pop.map (·.id)).Nodup → (∀ p ∈ pop, p.inj = none) → pt.incompat = []) := by
   obtain ⟨hc, _, _, hi, _⟩ := resolveOne_some hp h
   constructor
   · intro c hcm
     rw [hc] at hcm
     obtain ⟨p, hm, he, hfd⟩ := picked_found pop s [] a0 (Or.inr rfl) c hcm
     exact ⟨p, hm, he, found_assignable hfd⟩
-  · intro hid
-    rw [hi]; exact picked_compat_nil pop hid s [] a0 (Or.inr rfl)
+  · intro hid hraw
+    rw [hi]; exact picked_compat_nil pop hid hraw s [] a0 (Or.inr rfl)
 
 /-- SOUND (func tag): every candidate is assignable AND exposes the requested method — `FuncName` without a `returns`
     argument, `FuncNameAndResult` for one of the `returns` items otherwise. -/
@@ -60,15 +60,15 @@ theorem C06_sound_func (pop : List Prov) (s : Slot) (fn : Bytes) (a0 : Args) (pt
       (match find a0 kReturns with
        | some rs => rs.any (fun r => funcNameAndResult fn r p)
        | none => funcName fn p) = true) ∧
-    ((pop.map (·.id)).Nodup → pt.incompat = []) := by
+    ((pop.map (·.id)).Nodup → (∀ p ∈ pop, p.inj = none) → pt.incompat = []) := by
   obtain ⟨hc, _, _, hi, _⟩ := resolveOne_some hp h
   constructor
   · intro c hcm
     rw [hc] at hcm
     obtain ⟨p, hm, he, hfd⟩ := picked_found pop s fn a0 (Or.inl hf) c hcm
     exact ⟨p, hm, he, found_assignable hfd, found_methOK hf hfd⟩
-  · intro hid
-    rw [hi]; exact picked_compat_nil pop hid s fn a0 (Or.inl hf)
+  · intro hid hraw
+    rw [hi]; exact picked_compat_nil pop hid hraw s fn a0 (Or.inl hf)
 
 /-- COMPLETE (slices): a slice-typed by-type point receives exactly all compatible, qualifier-passing providers, in
     enumeration order, each once. -/
